@@ -149,10 +149,9 @@ structure Cfg where
   render : Nat → Bytes               -- bytes of an ordinary reply for response id (given, C04)
 
 /-- what `build_header_response` reads from the connection when the reply is an accepted upgrade
-    response: `keepalive` is still UNKNOWN (set by `MHD_connection_set_initial_state_` /
-    `connection_reset`; requests with a body framing conflict, which force MUST_CLOSE, are outside
-    this model: requests without body).  Version, method, `discard_request` and the request's own
-    "Connection" tokens do not matter for an upgrade response (`headBytes_indep_of_request` in
+    response.  Only `suppressDate` matters: version, method, `discard_request`, the request's own
+    "Connection" tokens and a `keepalive` already forced to MUST_CLOSE by the request's framing do not
+    (`keepalive_possible` decides an upgrade response first, fix F37; `headBytes_indep_of_request` in
     Proofs/UpgHead101) -/
 def replyConn (cfg : Cfg) : Mhd.Reply.Conn :=
   { keepalive := .unknown, ver := .v11, mthd := .get, suppressDate := cfg.suppressDate }
